@@ -122,6 +122,7 @@ type Profile struct {
 	Capacity, Windows, Precedence, Groups, Alternates, Initial, TD, DurGroups, Mult bool
 	Attrs, Mix, Limits, Waits, Targets, MinStops, Disable, NonMetric               bool
 	Tight                                                                           bool
+	ForceWindows                                                                    bool // windows, wait limits and a non-metric matrix always on
 }
 
 func fullProfile(maxStops, maxVeh int) Profile {
@@ -184,13 +185,13 @@ func genCase(rng *rand.Rand, p Profile) *Case {
 		}
 	}
 	useCap := on(p.Capacity, 2)
-	useWin := on(p.Windows, 2)
+	useWin := on(p.Windows, 2) || p.ForceWindows
 	usePrec := on(p.Precedence, 2)
 	useAttrs := on(p.Attrs, 3)
 	useMix := on(p.Mix, 5)
 	useTargets := on(p.Targets, 4)
-	useWaitStop := useWin && on(p.Waits, 3)
-	useWaitVeh := useWin && on(p.Waits, 3)
+	useWaitStop := useWin && (on(p.Waits, 3) || (p.ForceWindows && rng.Intn(2) == 0))
+	useWaitVeh := useWin && (on(p.Waits, 3) || p.ForceWindows)
 	attrsPool := []string{"a", "b", "c"}
 	for i := 0; i < n; i++ {
 		s := CStop{ID: fmt.Sprintf("s%d", i), Duration: 60 * rng.Intn(6)}
@@ -462,7 +463,7 @@ func genCase(rng *rand.Rand, p Profile) *Case {
 		c.feature("max_wait_stop")
 	}
 	m := c.measureSize()
-	nonMetric := on(p.NonMetric, 3)
+	nonMetric := on(p.NonMetric, 3) || p.ForceWindows
 	if nonMetric {
 		c.feature("non-metric")
 	}
